@@ -12,17 +12,20 @@ ordinary kernel-checked induction.
 namespace WV.C11.Certs
 open WV.C11 WV.C11.Cert
 
-/-- the reachable set, if the search was exhaustive (else nothing: every certificate then fails at once) -/
-def R : List Sys := if (reachable 100000).2 then (reachable 100000).1.toList else []
-
-/-- the search was exhaustive (the frontier became empty) -/
-theorem complete : (reachable 100000).2 = true := by native_decide
+/-- the reachable set, if the search was exhaustive (the frontier became empty below `STATE_LIMIT`);
+    else nothing: every certificate then fails at once -/
+def R : List Sys :=
+  let r := reachable 100000
+  if r.2 then r.1.toList else []
 
 /-- closed under every enabled event, every enabled step safe -/
 theorem cert : certList R = true := by native_decide
 
 /-- backward fixpoint of cooperative convergence covers the whole reachable set -/
 theorem certConverge : convergeCert 120 R = true := by native_decide
+
+/-- in every state of the certificate at least one direction of dialling works -/
+theorem reach_flags : ∀ t ∈ R, (t.ra || t.rb) = true := by native_decide
 
 theorem reach_mem (s : Sys) (hr : Reach s) : s ∈ R := (cert_sound cert s hr).1
 
